@@ -8,9 +8,10 @@ import (
 )
 
 func vpAux() string {
-	if vpTier() == 1 {
-		// auxiliary data larger than the reader's buffer (4096) and than one copy chunk (32 KiB)
-		if k := vpChoose("aux-size", 3); k > 0 {
+	{
+		// auxiliary data larger than the reader's buffer (4096) and, in the thorough tier, than one
+		// copy chunk (32 KiB)
+		if k := vpChoose("aux-size", 2+vpTier()); k > 0 {
 			b := make([]byte, []int{0, 5000, 40000}[k])
 			for i := range b {
 				b[i] = 'x'
@@ -204,6 +205,9 @@ func VP_C15_SingleFault() {
 			}
 		}
 		vpAssert("model: "+names[op]+"-reports-failure-only-if-nothing-changed (failing call: "+call+")", vpImp(err != nil, same))
+		// ... and nothing of the attempt stays behind in the work area (unless it is the removal itself that failed)
+		ents, terr := os.ReadDir(filepath.Join(base, ".tmp"))
+		vpAssert("model: failed-"+names[op]+"-leaves-nothing-in-the-work-area (failing call: "+call+")", vpImp(err != nil && call != "unlink", terr != nil || len(ents) == 0))
 	}
 	// whatever happened, the other users' records are intact
 	by, berr := os.ReadFile(filepath.Join(base, "root.admin"))
